@@ -288,7 +288,8 @@ class Emitter:
             # payload): if the library hands the unconverted object over instead of converting it, the tag is wrong
             tagged = bool([x for x in convs.get(n, ()) if x != n]) and not b
             if b:
-                w('struct %s : %s {%s %s(int p_=0):%s(p_){%s}' % (n, b, bm, n, b, fill))
+                # 'pad': the base class does not sit at offset 0 of the derived event (a base-class row must still get the base)
+                w('struct %s : %s%s {%s %s(int p_=0):%s(p_){%s}' % (n, 'rt::EvPad, ' if e.get('pad') else '', b, bm, n, b, fill))
             elif tagged:
                 w('struct %s { int tagx; int p;%s %s(int p_=0):tagx(0x5a5a5a),p(p_){%s}' % (n, bm, n, fill))
             else:
